@@ -113,6 +113,44 @@ def parseReply (d : List Byte) (known : Nat → Bool) : Res Reply :=
     .ok (.answer id ac.1 ac.2) p
   else .ok (.rcode id (flags % 16)) p
 
+/-! ### Part 0 — request encoding (`AppendDomain`, the send buffer of `request()`) -/
+
+/-- `util::string::Split(domain, ".", vec)`: the pieces between the dots, empty pieces kept
+(`""` ↦ one empty piece, `"a..b"` ↦ `a`, ``, `b`, `"a."` ↦ `a`, ``) -/
+def splitDot : List Byte → List (List Byte)
+  | [] => [[]]
+  | b :: bs =>
+    if b = 46 then [] :: splitDot bs
+    else (b :: (splitDot bs).headD []) :: (splitDot bs).tail
+
+/-- `dump << uint16_t` in big-endian mode (serializer.cpp:80-84: `p[1] = in & 0xff; in >>= 8; p[0] = in & 0xff`) -/
+def u16be (v : Nat) : List Byte := [UInt8.ofNat (v / 256 % 256), UInt8.ofNat (v % 256)]
+
+/-- `for (seg : vec) { dump << uint8_t(seg.length()); dump.append(seg.data(), seg.length()); }` —
+the length byte is the piece's length NARROWED to 8 bits, nothing is checked -/
+def encLabels (ls : List (List Byte)) : List Byte :=
+  ls.flatMap fun seg => UInt8.ofNat (seg.length % 256) :: seg
+
+/-- `AppendDomain(dump, domain)` -/
+def appendDomain (name : List Byte) : List Byte := encLabels (splitDot name) ++ [0]
+
+/-- the datagram `request()` sends to every configured server: header (id, flags 0x0100,
+qd 1, an/ns/ar 0), QNAME, QTYPE A, QCLASS IN -/
+def encodeQuery (id : Nat) (name : List Byte) : List Byte :=
+  u16be id ++ u16be 256 ++ u16be 1 ++ u16be 0 ++ u16be 0 ++ u16be 0 ++ appendDomain name ++ u16be 1 ++ u16be 1
+
+/-- what the kernel answers to one `sendto` of `len` bytes: `ans = 0` = the datagram is taken
+(UDP: all of it, or `EMSGSIZE` = 90 beyond 65 507 bytes); any other `ans` is the errno of a
+failure.  `request()` drops the value (`udp_.send(…)` is a discarded expression). -/
+def sendRet (len ans : Nat) : Int :=
+  if ans = 0 then (if len ≤ 65507 then (len : Int) else -90) else -(ans : Int)
+
+/-- what the kernel answers to one `recvfrom` of `UdpSocket::onSocketEvent` -/
+inductive KAns where
+  | err (errno : Nat)          -- -1 (EINTR, EAGAIN, ECONNREFUSED, …): nothing consumed
+  | data (d : List Byte)       -- the next queued datagram, cut to the buffer
+deriving Repr, DecidableEq
+
 /-! ### Part 2 — pending lookups, timeout ring, callbacks -/
 
 inductive Status where
@@ -265,6 +303,21 @@ def onRecv (st : St) (d : List Byte) : St × List Event :=
     | .ok rep _ => applyReply st rep
     | _ => (st, [])
 
+/-- `UdpSocket::onSocketEvent(kReadEvent)`: one `recvfrom` into the 4096-byte stack buffer;
+`rsize > 0` → `recv_cb_(buf, rsize, peer)` (the peer address is passed on and never looked at:
+`(void)from`), `rsize == 0` (empty datagram) → nothing, `rsize < 0` → a log line, nothing else. -/
+def sockEvent (st : St) : KAns → St × List Event
+  | .err _ => (st, [])
+  | .data d => if d.isEmpty then (st, []) else onRecv st (d.take 4096)
+
+/-- successive loop passes with the socket readable, the kernel answering `answers` in order -/
+def sockRun : St → List KAns → St × List Event
+  | st, [] => (st, [])
+  | st, a :: as =>
+    let r1 := sockEvent st a
+    let r2 := sockRun r1.1 as
+    (r2.1, r1.2 ++ r2.2)
+
 /-- `onRequestTimeout(token)`: `if (req == nullptr || req->seq != token.seq) return;` -/
 def onTimeout (acc : St × List Event) (t : Token) : St × List Event :=
   match find acc.1.reqs t.1 with
@@ -296,6 +349,10 @@ inductive Op where
   | net (d : List Byte)        -- a datagram sent to the client's UDP socket: UdpSocket::onSocketEvent reads at most
                                -- RECV_BUFF_SIZE = 4096 bytes of it and hands them to onUdpRecv
   | tick
+  | lookupN (name : List Byte) (sid : Nat) (send : List Nat)
+                               -- request(DomainName(name), script sid); `send` = the kernel's answers to the sendto calls
+  | sock (answers : List KAns) -- loop passes with the kernel answering the socket's recvfrom calls (fault schedule)
+  | recvAt (k : Nat) (d : List Byte)   -- onUdpRecv(d) with the bytes at address ≡ k (mod 8)
 deriving Repr, DecidableEq
 
 /-- observable result of one operation: the return value and the callbacks it ran -/
@@ -313,6 +370,9 @@ def step (st : St) : Op → St × Out
   | .recv d => let (s, e) := onRecv st d; (s, { events := e })
   | .net d => let (s, e) := onRecv st (d.take 4096); (s, { events := e })
   | .tick => let (s, e) := tick st; (s, { events := e })
+  | .lookupN _ sid _ => let (s, id) := lookup st sid; (s, { ret := id })
+  | .sock answers => let (s, e) := sockRun st answers; (s, { events := e })
+  | .recvAt _ d => let (s, e) := onRecv st d; (s, { events := e })
 
 def init : St := {}
 
